@@ -13,9 +13,9 @@ git -C $WT diff -- ffcx > /tmp/seed/$NAME.cur.diff
 if diff -q <(grep -v '^index ' /tmp/seed/$NAME.cur.diff) <(grep -v '^index ' $D/patch.diff) >/dev/null; then echo "patch.diff == worktree diff"; else echo "patch.diff DIFFERS from worktree diff (using worktree diff)"; cp /tmp/seed/$NAME.cur.diff $D/patch.diff; fi
 cd $WT
 echo "--- demo with change:"; (cd /tmp && PYTHONPATH=$WT timeout 1200 /venv/bin/python $D/demo.py 2>&1 | tail -5; echo "exit=${PIPESTATUS[0]}")
-git -C $WT stash -q
+git -C $WT apply -R $D/patch.diff
 echo "--- demo without change:"; (cd /tmp && PYTHONPATH=$WT timeout 1200 /venv/bin/python $D/demo.py 2>&1 | tail -3; echo "exit=${PIPESTATUS[0]}")
-git -C $WT stash pop -q
+git -C $WT apply $D/patch.diff
 echo "--- test suite with change:"
 PYTHONPATH=$WT /venv/bin/python -m pytest -q -p no:cacheprovider --timeout=900 -n 6 test/ 2>&1 | tail -4
 } > $D/intake.txt 2>&1
